@@ -422,7 +422,7 @@ func (g *Graph) renderScope(b *strings.Builder, scope, ind string) {
 		}
 		fmt.Fprintf(b, `%s<bpmn:sequenceFlow id="%s" sourceRef="%s" targetRef="%s">`+"\n", ind, f.ID, f.Src, f.Dst)
 		if f.Cond.Kind == "informal" {
-			fmt.Fprintf(b, `%s  <bpmn:conditionExpression>%s</bpmn:conditionExpression>`+"\n", ind, condExpr(f.Cond, lang))
+			fmt.Fprintf(b, `%s  <bpmn:conditionExpression id="%s_x">%s</bpmn:conditionExpression>`+"\n", ind, f.ID, condExpr(f.Cond, lang))
 		} else {
 			la := ""
 			if f.Cond.Lang == "xpath" {
@@ -430,7 +430,7 @@ func (g *Graph) renderScope(b *strings.Builder, scope, ind string) {
 			} else if f.Cond.Lang == "expr" {
 				la = fmt.Sprintf(` language="%s"`, ExprLang)
 			}
-			fmt.Fprintf(b, `%s  <bpmn:conditionExpression xsi:type="bpmn:tFormalExpression"%s>%s</bpmn:conditionExpression>`+"\n", ind, la, condExpr(f.Cond, lang))
+			fmt.Fprintf(b, `%s  <bpmn:conditionExpression xsi:type="bpmn:tFormalExpression" id="%s_x"%s>%s</bpmn:conditionExpression>`+"\n", ind, f.ID, la, condExpr(f.Cond, lang))
 		}
 		fmt.Fprintf(b, "%s</bpmn:sequenceFlow>\n", ind)
 	}
